@@ -21,7 +21,7 @@ import ast
 from ..cfg import CFG, definitely_assigned, local_names, uses
 from ..exctypes import ExcTypes
 from ..facts import flag_constants, must_facts
-from ..model import Program, call_name, norm, walk_no_nested
+from ..model import Program, call_name, norm, walk_no_nested, dict_store_keys
 from ..report import AnalysisError
 
 PROP = "C12"
@@ -373,13 +373,7 @@ def rule_r6(rep, program, et):
         f = c.methods.get("__init__")
         if f is None:
             continue
-        for n in ast.walk(f.node):
-            if isinstance(n, ast.Assign):
-                for t in n.targets:
-                    if isinstance(t, ast.Subscript) and norm(t.value) == "self._statistic_types":
-                        decl_base.add(ast.literal_eval(t.slice))
-                    if norm(t) == "self._statistic_types" and isinstance(n.value, ast.Dict):
-                        decl_base |= {ast.literal_eval(k) for k in n.value.keys}
+        decl_base |= dict_store_keys(f.node, "self._statistic_types")
     for cls, (keys, _v) in covered.items():
         for k in keys:
             kk = ast.literal_eval(k)
